@@ -51,6 +51,14 @@ type Frame struct {
 	tags     []string
 	callOrd  map[string]int
 	dbgVals  map[string]ssa.Value
+	collectDefers bool
+	pendingRD     []pendingRunDefers
+}
+
+type pendingRunDefers struct {
+	instr *ssa.RunDefers
+	st    *State
+	pc    T
 }
 
 type edge struct {
@@ -260,6 +268,7 @@ func (fr *Frame) run(st *State, pc T) {
 	}
 	isBack := func(u, v *ssa.BasicBlock) bool { return v.Dominates(u) }
 	order := rpo(fn, isBack)
+	fr.collectDefers = rundefersTailsSimple(fn) && lc != nil && lc.Has("mergeexits")
 	fr.edgeIn[fn.Blocks[0]] = []edge{{nil, pc, st}}
 	for _, b := range order {
 		if b == fn.Recover {
@@ -279,6 +288,16 @@ func (fr *Frame) run(st *State, pc T) {
 		if bpc == False {
 			continue
 		}
+		if len(conds) == 1 {
+			vc.pcImplies(bpc, conds[0])
+		}
+		if d := b.Idom(); d != nil {
+			if dpc, ok := fr.blockPC[d]; ok {
+				vc.pcImplies(bpc, dpc)
+			}
+		} else {
+			vc.pcImplies(bpc, pc)
+		}
 		cur := vc.mergeStates(conds, sts)
 		fr.blockPC[b] = bpc
 		// phis
@@ -295,6 +314,83 @@ func (fr *Frame) run(st *State, pc T) {
 		}
 		fr.execBlock(b, cur, bpc)
 		delete(fr.edgeIn, b)
+	}
+	fr.finishRunDefers()
+}
+
+// rundefersTailsSimple: every `rundefers` is followed only by loads and a return in its block.
+func rundefersTailsSimple(fn *ssa.Function) bool {
+	n := 0
+	for _, b := range fn.Blocks {
+		for i, in := range b.Instrs {
+			if _, ok := in.(*ssa.RunDefers); ok {
+				n++
+				for _, t := range b.Instrs[i+1:] {
+					switch u := t.(type) {
+					case *ssa.UnOp:
+						if u.Op != token.MUL {
+							return false
+						}
+					case *ssa.Return, *ssa.DebugRef:
+					default:
+						return false
+					}
+				}
+			}
+		}
+	}
+	return n > 1
+}
+
+// finishRunDefers runs the deferred calls once, on the merge of all states that reached a `rundefers`.
+func (fr *Frame) finishRunDefers() {
+	vc := fr.vc
+	if len(fr.pendingRD) == 0 {
+		return
+	}
+	pend := fr.pendingRD
+	fr.pendingRD = nil
+	fr.collectDefers = false
+	var conds []T
+	var sts []*State
+	for _, p := range pend {
+		conds = append(conds, p.pc)
+		sts = append(sts, p.st)
+	}
+	merged := vc.mergeStates(conds, sts)
+	pcAny := vc.define("pc_rd", SortBool, Or(conds...))
+	if vc.pcSplits == nil {
+		vc.pcSplits = map[string][]T{}
+	}
+	vc.pcSplits[pcAny] = conds
+	npc := fr.runDefers(merged, pcAny)
+	for _, p := range pend {
+		b := p.instr.Block()
+		st := merged.clone()
+		pc := And(p.pc, npc)
+		started := false
+		for _, in := range b.Instrs {
+			if in == ssa.Instruction(p.instr) {
+				started = true
+				continue
+			}
+			if !started {
+				continue
+			}
+			if ret, ok := in.(*ssa.Return); ok {
+				var rets []Val
+				for _, r := range ret.Results {
+					v := fr.get(r)
+					if v.Addr != nil {
+						v = Val{Typ: r.Type(), Ts: []T{vc.materialize(v)}}
+					}
+					rets = append(rets, v)
+				}
+				fr.exits = append(fr.exits, exitPoint{pc, st, rets, ret.Pos()})
+				break
+			}
+			pc = fr.execInstr(in, st, pc)
+		}
 	}
 }
 
@@ -372,8 +468,11 @@ func (fr *Frame) execBlock(b *ssa.BasicBlock, st *State, pc T) {
 		case *ssa.If:
 			c := fr.get(in.Cond).Ts[0]
 			c = vc.define("br", SortBool, c)
-			fr.addEdge(b, b.Succs[0], And(pc, c), st)
-			fr.addEdge(b, b.Succs[1], And(pc, Not(c)), st.clone())
+			t1, t2 := And(pc, c), And(pc, Not(c))
+			vc.pcImplies(t1, pc)
+			vc.pcImplies(t2, pc)
+			fr.addEdge(b, b.Succs[0], t1, st)
+			fr.addEdge(b, b.Succs[1], t2, st.clone())
 			return
 		case *ssa.Jump:
 			fr.addEdge(b, b.Succs[0], pc, st)
@@ -395,7 +494,11 @@ func (fr *Frame) execBlock(b *ssa.BasicBlock, st *State, pc T) {
 			}
 			return
 		default:
-			pc = fr.execInstr(instr, st, pc)
+			npc := fr.execInstr(instr, st, pc)
+			if npc != pc {
+				vc.pcImplies(npc, pc)
+			}
+			pc = npc
 			if pc == False {
 				return
 			}
@@ -845,6 +948,10 @@ func (fr *Frame) execInstr(instr ssa.Instruction, st *State, pc T) T {
 		d.fnVal = fr.get(in.Call.Value)
 		fr.defers = append(fr.defers, d)
 	case *ssa.RunDefers:
+		if fr.collectDefers && len(fr.defers) > 0 {
+			fr.pendingRD = append(fr.pendingRD, pendingRunDefers{in, st, pc})
+			return False
+		}
 		return fr.runDefers(st, pc)
 	case *ssa.Go:
 		vc.Dropped = append(vc.Dropped, "go statement at "+e.Fset.Position(in.Pos()).String()+": goroutine body not verified in this context")
